@@ -1828,4 +1828,379 @@ Section Sim.
       exists kwm. split; [|split; reflexivity].
       unfold owner_step. rewrite (is_spec_none pc D). simpl. destruct s; reflexivity.
   Qed.
+  (* ---- the whole parent loop *)
+  Definition in_ks (pc : cdesc) : Prop := exists l1 l2, ks = l1 ++ pc :: l2 /\ k_hinit pc = None.
+
+  Lemma sel_unique r p1 p2 : In r (m_attrs M) ->
+    sel p1 (r_name r) = true -> sel p2 (r_name r) = true -> p1 = p2.
+  Proof.
+    intros H S1 S2. rewrite (sel_attr r p1 H) in S1. rewrite (sel_attr r p2 H) in S2.
+    apply andb_prop in S1. destruct S1 as [S1 _]. apply andb_prop in S1. destruct S1 as [S1 _].
+    apply andb_prop in S2. destruct S2 as [S2 _]. apply andb_prop in S2. destruct S2 as [S2 _].
+    apply Nat.eqb_eq in S1, S2. congruence.
+  Qed.
+
+  Lemma parents_fold PL : forall kwm s,
+    NoDup (map k_id PL) -> (forall pc, In pc PL -> in_ks pc) ->
+    (forall pc r, In pc PL -> In r (m_attrs M) -> sel (k_id pc) (r_name r) = true ->
+                  kw_get (r_name r) kwm = assoc (r_name r) kw1) ->
+    exists kw',
+      fold_left (parent_step cur (rch ks) M) (map k_id PL) (Ok (kwm, s))
+      = match fold_left (owner_step ks false kw1) PL (Ok (s_dict s, s_hand s)) with
+        | Ok (d, hc) => Ok (kw', mkst d (s_post s) hc)
+        | Err e => Err e end
+      /\ (forall r, In r (m_attrs M) -> (forall pc, In pc PL -> sel (k_id pc) (r_name r) = false) ->
+                    assoc (r_name r) kw' = assoc (r_name r) kwm)
+      /\ content kw' = content kwm.
+  Proof.
+    induction PL as [|pc t IH]; intros kwm s ND HI HK.
+    - exists kwm. simpl. destruct s. repeat split; reflexivity.
+    - inversion ND as [|? ? Hx NDt]; subst.
+      destruct (HI pc (or_introl eq_refl)) as [l1 [l2 [E NH]]].
+      destruct (parent_step_sim l1 pc l2 kwm s E NH) as [kwA [EA [KA CA]]].
+      { intros r Hr S. apply (HK pc r); [left; reflexivity | exact Hr | exact S]. }
+      cbn [map fold_left]. rewrite EA.
+      destruct (owner_step ks false kw1 (Ok (s_dict s, s_hand s)) pc) as [[d hc]|e] eqn:OS.
+      + destruct (IH kwA (mkst d (s_post s) hc) NDt) as [kwB [EB [KB CB]]].
+        * intros x Hx'. apply HI. right. exact Hx'.
+        * intros pc' r Hp Hr S. unfold kw_get. rewrite KA.
+          -- apply (HK pc' r); [right; exact Hp | exact Hr | exact S].
+          -- rewrite (psel_sel (k_id pc) r Hr). destruct (sel (k_id pc) (r_name r)) eqn:S0; [|reflexivity].
+             exfalso. apply Hx. rewrite (sel_unique r _ _ Hr S0 S). apply in_map. exact Hp.
+        * exists kwB. split; [exact EB|]. split.
+          -- intros r Hr HS. rewrite (KB r Hr) by (intros x Hx'; apply HS; right; exact Hx').
+             apply KA. rewrite (psel_sel (k_id pc) r Hr). apply HS. left. reflexivity.
+          -- rewrite CB. exact CA.
+      + exists kwm. split; [|split; reflexivity].
+        rewrite !fold_err; try reflexivity.
+  Qed.
+  (* ---- the top-level call of InitMethod.init *)
+  Lemma unknown_accepted a : is_unknown cur M a = negb (accepted ks a).
+  Proof.
+    unfold is_unknown, accepted. simpl q_drop_noninit_ovf.
+    destruct M_inv as [_ [OV _]].
+    destruct (find_attr a (m_attrs M)) as [r|] eqn:F.
+    - apply find_attr_Some in F. destruct F as [Fi Fn].
+      destruct (M_attr r Fi) as [_ [N _]]. rewrite Fn in N.
+      assert (Hm : memb a (managed ks) = true).
+      { apply memb_In. rewrite <- M_names, <- Fn. apply in_map. exact Fi. }
+      rewrite Hm, <- N, <- OV. simpl. destruct (r_init r); destruct (opt_eqb (m_ovf M) a); reflexivity.
+    - apply M_find_managed in F. apply memb_false in F. rewrite F. reflexivity.
+  Qed.
+
+  Definition wrap (kw : list (aid * aval)) : kwargs := map (fun p => (fst p, Some (snd p))) kw.
+
+  Definition ph_ok (ph : kwargs) : Prop :=
+    ph = [] \/ exists ka, ph = [(ka, None)] /\ assoc ka kw1 = None.
+
+  Lemma assoc_wrap a kw : assoc a (wrap kw) = option_map Some (assoc a kw).
+  Proof. unfold wrap. apply (assoc_map_snd Some). Qed.
+
+  Lemma kw_get_wrap ph a : ph_ok ph -> kw_get a (ph ++ wrap kw1) = assoc a kw1.
+  Proof.
+    intros [H|[ka [H K]]]; subst ph; unfold kw_get.
+    - simpl. rewrite assoc_wrap. destruct (assoc a kw1); reflexivity.
+    - simpl. destruct (ka =? a) eqn:E.
+      + apply Nat.eqb_eq in E. subst. rewrite K. reflexivity.
+      + rewrite assoc_wrap. destruct (assoc a kw1); reflexivity.
+  Qed.
+
+  Lemma content_wrap_all kw :
+    content (wrap kw) = filter (fun p => negb (accepted ks (fst p))) kw.
+  Proof.
+    unfold content, wrap. induction kw as [|[a v] t IH]; [reflexivity|].
+    cbn [map flat_map fst snd filter]. rewrite unknown_accepted.
+    destruct (accepted ks a); simpl; [exact IH | f_equal; exact IH].
+  Qed.
+
+  Lemma content_wrap ph : ph_ok ph ->
+    content (ph ++ wrap kw1) = filter (fun p => negb (accepted ks (fst p))) kw1.
+  Proof.
+    intro H. assert (E : content (ph ++ wrap kw1) = content (wrap kw1)).
+    { destruct H as [H|[ka [H _]]]; subst ph; [reflexivity|].
+      unfold content. simpl. destruct (is_unknown cur M ka); reflexivity. }
+    rewrite E. apply content_wrap_all.
+  Qed.
+
+  Lemma first_post_rch l :
+    first_some (fun r => if rc_post r then Some (rc_id r) else None) (rch l)
+    = match find k_post l with Some k => Some (k_id k) | None => None end.
+  Proof.
+    induction l as [|k t IH]; [reflexivity|]. simpl. destruct (k_post k); [reflexivity | exact IH].
+  Qed.
+
+  Lemma owner_step_top pc d0 hc :
+    is_spec pc = true ->
+    owner_step ks true kw1 (Ok (d0, hc)) pc
+    = match fold_left spec_step (filter (sel (k_id pc)) (managed ks)) (Ok d0) with
+      | Ok d' => Ok (d', hc) | Err e => Err e end.
+  Proof. intro S. unfold owner_step. rewrite S. reflexivity. Qed.
+
+  Lemma init_top_sim pre m t' d ph :
+    ks = pre ++ m :: t' -> k_deco m = Some d -> (forall c, In c ks -> k_hinit c = None) ->
+    ph_ok ph ->
+    init_top cur (rch ks) M (rone m (rch t')) (ph ++ wrap kw1) (mkst [] [] [])
+    = match fold_left (owner_step ks false kw1) (rev t') (Ok ([], [])) with
+      | Err e => Err e
+      | Ok dh =>
+          match owner_step ks true kw1 (Ok dh) m with
+          | Err e => Err e
+          | Ok (d1, hc) =>
+              match (match ovf_of ks with
+                     | Some o => assign ks o (ADict (filter (fun p => negb (accepted ks (fst p))) kw1)) d1
+                     | None => Ok d1 end) with
+              | Err e => Err e
+              | Ok d2 => Ok (mkst d2 (post_of ks) hc)
+              end
+          end
+      end.
+  Proof.
+    intros E D NH PH. unfold init_top.
+    cbn [rc_mro rone tl rc_id]. rewrite rch_ids, <- map_rev.
+    assert (CT : chain (m :: t')) by (apply (chain_app_r pre); rewrite <- E; exact C).
+    destruct (parents_fold (rev t') (ph ++ wrap kw1) (mkst [] [] [])) as [kwF [EF [KF CF]]].
+    { rewrite map_rev. apply NoDup_rev. apply chain_NoDup. exact (chain_tail _ _ CT). }
+    { intros pc Hp. apply in_rev in Hp. apply in_split in Hp. destruct Hp as [a [b Hp]].
+      exists (pre ++ m :: a), b. split.
+      - rewrite E, Hp. rewrite <- app_assoc. reflexivity.
+      - apply NH. rewrite E, Hp. apply in_app_iff. right. right. apply in_app_iff. right. left. reflexivity. }
+    { intros pc r _ _ _. apply kw_get_wrap. exact PH. }
+    rewrite EF. cbn [s_dict s_hand s_post].
+    destruct (fold_left (owner_step ks false kw1) (rev t') (Ok ([], []))) as [[d0 hc]|e]; [|reflexivity].
+    rewrite (owner_step_top m d0 hc (is_spec_deco m d D)).
+    rewrite own_loop_sim.
+    - cbn [s_dict lift].
+      destruct (fold_left spec_step (filter (sel (k_id m)) (managed ks)) (Ok d0)) as [d1|e]; [|reflexivity].
+      cbn [lift s_post s_hand].
+      destruct M_inv as [_ [OV _]]. rewrite OV.
+      destruct (ovf_of ks) as [o|].
+      + rewrite set_attr_assign. cbn [s_dict]. fold (content kwF). rewrite CF, (content_wrap ph PH).
+        destruct (assign ks o _ d1) as [d2|e]; [|reflexivity].
+        cbn [lift s_post s_hand s_dict]. simpl q_static_post. cbv iota.
+        rewrite first_post_rch. unfold post_of. destruct (find k_post ks); reflexivity.
+      + simpl q_static_post. cbv iota.
+        rewrite first_post_rch. unfold post_of. destruct (find k_post ks); reflexivity.
+    - intros r Hr S. apply value_sim; [exact Hr|]. unfold kw_get. rewrite (KF r Hr).
+      + apply kw_get_wrap. exact PH.
+      + intros pc Hp. destruct (sel (k_id pc) (r_name r)) eqn:S0; [|reflexivity].
+        exfalso. pose proof (sel_unique r _ _ Hr S0 S) as EQ.
+        destruct CT as [CT _]. apply CT. rewrite <- EQ. apply in_map. apply in_rev. exact Hp.
+  Qed.
+  (* ---- the generated wrapper: advertised keywords *)
+  Lemma valid_accepted a :
+    (forall k, key_of ks = Some k -> accepted ks k = true) ->
+    opt_eqb (m_key M) a || memb a (valid_kwargs M) = accepted ks a.
+  Proof.
+    intro KG. destruct M_inv as [KE [OV _]].
+    destruct (opt_eqb (m_key M) a) eqn:K.
+    - simpl. rewrite KE in K. destruct (key_of ks) as [k|]; [|discriminate]. simpl in K.
+      apply Nat.eqb_eq in K. subst a. symmetry. apply KG. reflexivity.
+    - simpl. unfold accepted.
+      destruct (memb a (managed ks)) eqn:Hm.
+      + apply memb_In in Hm. rewrite <- M_names in Hm. apply in_map_iff in Hm.
+        destruct Hm as [r [Fn Fi]]. destruct (M_attr r Fi) as [_ [N _]]. rewrite Fn in N.
+        rewrite <- N, <- OV. simpl.
+        destruct (r_init r && negb (opt_eqb (m_ovf M) a)) eqn:B.
+        * apply memb_In. unfold valid_kwargs. rewrite <- Fn. apply in_map. apply filter_In.
+          split; [exact Fi|]. rewrite Fn, K. apply andb_prop in B. destruct B as [B1 B2].
+          rewrite B1, B2. reflexivity.
+        * apply memb_false. unfold valid_kwargs. intro H. apply in_map_iff in H.
+          destruct H as [r' [Fn' H]]. apply filter_In in H. destruct H as [Fi' H].
+          assert (r' = r).
+          { pose proof (M_find r Fi) as F1. pose proof (M_find r' Fi') as F2.
+            rewrite Fn in F1. rewrite Fn' in F2. congruence. }
+          subst r'. rewrite Fn, K in H. simpl in H. rewrite andb_true_r in H.
+          congruence.
+      + simpl. apply memb_false. unfold valid_kwargs. intro H. apply in_map_iff in H.
+        destruct H as [r' [Fn' H]]. apply filter_In in H. destruct H as [Fi' _].
+        apply memb_false in Hm. apply Hm. rewrite <- M_names, <- Fn'. apply in_map. exact Fi'.
+  Qed.
+
+  Lemma forallb_filter_nil {A} (f : A -> bool) l :
+    forallb f l = match filter (fun x => negb (f x)) l with [] => true | _ => false end.
+  Proof.
+    induction l as [|x t IH]; [reflexivity|]. simpl. destruct (f x); simpl; [exact IH | reflexivity].
+  Qed.
+
+  Lemma forallb_map' {A B} (f : B -> bool) (g : A -> B) l :
+    forallb f (map g l) = forallb (fun x => f (g x)) l.
+  Proof. induction l as [|x t IH]; simpl; [reflexivity | rewrite IH; reflexivity]. Qed.
+
+  Lemma forallb_ext' {A} (f g : A -> bool) l : (forall x, f x = g x) -> forallb f l = forallb g l.
+  Proof. intro H. induction l as [|x t IH]; simpl; [reflexivity | rewrite H, IH; reflexivity]. Qed.
+
+  Lemma wrapper_sim ph :
+    (forall k, key_of ks = Some k -> accepted ks k = true) ->
+    (ph = [] \/ exists ka, ph = [(ka, None)] /\ m_key M = Some ka) ->
+    wrapper_ok M (ph ++ wrap kw1)
+    = negb (negb (opt_is (ovf_of ks))
+            && negb (match filter (fun p => negb (accepted ks (fst p))) kw1 with [] => true | _ => false end)).
+  Proof.
+    intros KG PH. unfold wrapper_ok. destruct M_inv as [_ [OV _]]. rewrite OV.
+    destruct (opt_is (ovf_of ks)); [reflexivity|]. simpl. rewrite negb_involutive.
+    rewrite forallb_app.
+    match goal with |- context [forallb ?f ph] => assert (E1 : forallb f ph = true) end.
+    { destruct PH as [PH|[ka [PH K]]]; subst ph; [reflexivity|]. simpl. rewrite K. simpl.
+      rewrite Nat.eqb_refl. reflexivity. }
+    etransitivity; [apply (f_equal2 andb E1 (eq_refl _))|].
+    simpl andb. unfold wrap. rewrite forallb_map'. simpl fst.
+    rewrite (forallb_ext' _ (fun p => accepted ks (fst p))) by (intro p; apply valid_accepted; exact KG).
+    apply forallb_filter_nil.
+  Qed.
 End Sim.
+
+(* ------------------------------------------------------------------ the constructor call on a chain *)
+Definition out_of (r : res st) : res outcome :=
+  match r with Ok s => Ok (mkout (s_dict s) (s_post s) (s_hand s)) | Err e => Err e end.
+
+(* side conditions on the call: the key attribute is an initialisable attribute other than
+   the overflow attribute, and - when the key is omitted - no plain class between the
+   constructor's class and the nearest spec class that mentions the key gives a default to
+   a key that has none there (the generated signature is fixed from that declaration) *)
+Definition key_guard (ks : list cdesc) (pos : option aval) (kw : list (aid * aval)) : Prop :=
+  forall k, key_of ks = Some k ->
+    accepted ks k = true
+    /\ (pos <> None \/ has k kw = true
+        \/ opt_is (nearest_default (owner ks k) k (ms ks))
+           = opt_is (nearest_default (owner ks k) k (up_from (fun c => mentions c k) ks))).
+
+Lemma meta_anc_head_spec l m t : meta_anc l = m :: t -> is_spec m = true.
+Proof.
+  induction l as [|k l' IH]; [discriminate|]. simpl. destruct (is_spec k) eqn:S.
+  - intro H. injection H as H _. subst. exact S.
+  - exact IH.
+Qed.
+
+Lemma first_init_rch pre m t' d :
+  (forall c, In c pre -> is_spec c = false /\ k_hinit c = None) ->
+  k_deco m = Some d -> k_hinit m = None ->
+  first_some (fun r => match rc_init r with Some i => Some (r, i) | None => None end)
+             (rch (pre ++ m :: t')) = Some (rone m (rch t'), IGen).
+Proof.
+  intros P D NH. induction pre as [|c t IH].
+  - simpl. rewrite NH, D. reflexivity.
+  - simpl. destruct (P c (or_introl eq_refl)) as [S H]. rewrite H.
+    unfold is_spec in S. destruct (k_deco c); [discriminate|].
+    apply IH. intros x Hx. apply P. right. exact Hx.
+Qed.
+
+Lemma first_init_none pre :
+  (forall c, In c pre -> is_spec c = false /\ k_hinit c = None) ->
+  first_some (fun r => match rc_init r with Some i => Some (r, i) | None => None end) (rch pre) = None.
+Proof.
+  intro P. induction pre as [|c t IH]; [reflexivity|].
+  simpl. destruct (P c (or_introl eq_refl)) as [S H]. rewrite H.
+  unfold is_spec in S. destruct (k_deco c); [discriminate|].
+  apply IH. intros x Hx. apply P. right. exact Hx.
+Qed.
+
+Lemma nearest_meta_prefix pre m t' d :
+  (forall c, In c pre -> is_spec c = false) -> k_deco m = Some d ->
+  nearest_meta (rch (pre ++ m :: t')) = Some (boot m d (rch t')).
+Proof.
+  intros P D. induction pre as [|c t IH].
+  - apply nearest_meta_rch_spec. exact D.
+  - simpl app. rewrite nearest_meta_rch_plain.
+    + apply IH. intros x Hx. apply P. right. exact Hx.
+    + pose proof (P c (or_introl eq_refl)) as S. unfold is_spec in S. destruct (k_deco c); [discriminate | reflexivity].
+Qed.
+
+Lemma has_wrap a kw : has a (wrap kw) = has a kw.
+Proof. unfold has. rewrite assoc_wrap. destruct (assoc a kw); reflexivity. Qed.
+
+Lemma accepted_find ks M a :
+  map r_name (m_attrs M) = managed ks -> accepted ks a = true -> exists r, find_attr a (m_attrs M) = Some r.
+Proof.
+  intros N A. unfold accepted in A. apply andb_prop in A. destruct A as [A _].
+  apply andb_prop in A. destruct A as [A _]. apply memb_In in A. rewrite <- N in A.
+  destruct (find_attr a (m_attrs M)) as [r|] eqn:F; [exists r; reflexivity|].
+  apply find_attr_None in F. contradiction.
+Qed.
+
+Theorem construct_chain ks pos kw :
+  chain ks -> wfc ks -> (forall c, In c ks -> k_hinit c = None) ->
+  key_guard ks pos kw ->
+  out_of (construct_in cur (rch ks) pos kw) = expected_init ks pos kw.
+Proof.
+  intros C W NH KG.
+  destruct (meta_anc_split ks) as [pre [E P]].
+  assert (P' : forall c, In c pre -> is_spec c = false /\ k_hinit c = None).
+  { intros c Hc. split; [apply P; exact Hc | apply NH; rewrite E; apply in_app_iff; left; exact Hc]. }
+  unfold construct_in, expected_init, ms.
+  destruct (meta_anc ks) as [|m t'] eqn:MA.
+  - rewrite app_nil_r in E. rewrite E. rewrite (first_init_none pre P'). reflexivity.
+  - pose proof (meta_anc_head_spec ks m t' MA) as S.
+    unfold is_spec in S. destruct (k_deco m) as [d|] eqn:D; [clear S|discriminate].
+    assert (NHm : k_hinit m = None) by (apply NH; rewrite E; apply in_app_iff; right; left; reflexivity).
+    rewrite E at 1. rewrite (first_init_rch pre m t' d P' D NHm).
+    cbn [rc_meta rone]. rewrite D. unfold self_meta.
+    assert (HM : nearest_meta (rch ks) = Some (boot m d (rch t'))).
+    { rewrite E at 1. apply nearest_meta_prefix; assumption. }
+    rewrite HM. rewrite NHm.
+    set (M := boot m d (rch t')) in *.
+    destruct (M_inv ks C W M HM) as [KE [OV [NM IA]]].
+    assert (KA : forall k, key_of ks = Some k -> accepted ks k = true) by (intros k Hk; apply (KG k Hk)).
+    (* the rest of the call once the keywords are bound *)
+    assert (REST : forall ph kw1,
+               ph_ok kw1 ph -> (ph = [] \/ exists ka, ph = [(ka, None)] /\ m_key M = Some ka) ->
+               out_of (if negb (wrapper_ok M (ph ++ wrap kw1)) then Err TypeErr
+                       else if m_owner M =? rc_id (rone m (rch t'))
+                            then init_top cur (rch ks) M (rone m (rch t')) (ph ++ wrap kw1) (mkst [] [] [])
+                            else own_loop (rch ks) M (rc_id (rone m (rch t'))) (ph ++ wrap kw1) (mkst [] [] []))
+               = (let unknown := filter (fun p => negb (accepted ks (fst p))) kw1 in
+                  if negb (opt_is (ovf_of ks)) && negb (match unknown with [] => true | _ => false end)
+                  then Err TypeErr else
+                  match fold_left (owner_step ks false kw1) (rev t') (Ok ([], [])) with
+                  | Err e => Err e
+                  | Ok dh =>
+                      match owner_step ks true kw1 (Ok dh) m with
+                      | Err e => Err e
+                      | Ok (d0, hc) =>
+                          match (match ovf_of ks with
+                                 | Some o => assign ks o (ADict unknown) d0
+                                 | None => Ok d0 end) with
+                          | Err e => Err e
+                          | Ok d' => Ok (mkout d' (post_of ks) hc)
+                          end
+                      end
+                  end)).
+    { intros ph kw1 PH1 PH2. cbv zeta.
+      rewrite (wrapper_sim ks C W M HM kw1 ph KA PH2). rewrite negb_involutive.
+      destruct (negb (opt_is (ovf_of ks)) && negb _) eqn:U; [reflexivity|].
+      cbn [m_owner M boot rc_id rone]. rewrite Nat.eqb_refl.
+      rewrite (init_top_sim ks C W M HM kw1 pre m t' d ph E D NH PH1).
+      destruct (fold_left (owner_step ks false kw1) (rev t') (Ok ([], []))) as [dh|e]; [|reflexivity].
+      destruct (owner_step ks true kw1 (Ok dh) m) as [[d0 hc]|e]; [|reflexivity].
+      destruct (ovf_of ks) as [o|].
+      - destruct (assign ks o _ d0); reflexivity.
+      - reflexivity. }
+    rewrite KE. fold (wrap kw).
+    destruct (key_of ks) as [ka|] eqn:KO.
+    + destruct (KG ka KO) as [AK GK].
+      rewrite has_wrap.
+      destruct pos as [v|].
+      * destruct (has ka kw) eqn:HK; [reflexivity|].
+        change ((ka, Some v) :: wrap kw) with ([] ++ wrap ((ka, v) :: kw)).
+        apply (REST [] ((ka, v) :: kw)); left; reflexivity.
+      * destruct (has ka kw) eqn:HK.
+        -- cbn [orb]. change (wrap kw) with ([] ++ wrap kw).
+           apply (REST [] kw); left; reflexivity.
+        -- cbn [orb].
+           destruct (accepted_find ks M ka NM AK) as [r F]. rewrite F.
+           pose proof (find_attr_Some _ _ _ F) as [Fi Fn].
+           destruct (IA r Fi) as [_ [_ [O [_ [_ [I2 _]]]]]]. rewrite Fn in O, I2.
+           assert (HD : match r_dflt r with DNone => false | _ => true end
+                        = opt_is (nearest_default (owner ks ka) ka (ms ks))).
+           { destruct GK as [GK|[GK|GK]]; [congruence | congruence|].
+             fold (ms ks) in GK. rewrite GK, O, <- I2. rewrite default_value_eq.
+             destruct (r_dflt r); reflexivity. }
+           rewrite HD. unfold ms. rewrite MA.
+           destruct (opt_is (nearest_default (owner ks ka) ka (m :: t'))); [|reflexivity].
+           change ((ka, @None aval) :: wrap kw) with ([(ka, @None aval)] ++ wrap kw).
+           apply (REST [(ka, None)] kw).
+           ++ right. exists ka. split; [reflexivity|].
+              unfold has in HK. destruct (assoc ka kw); [discriminate | reflexivity].
+           ++ right. exists ka. split; [reflexivity | exact KE].
+    + destruct pos as [v|]; [reflexivity|].
+      change (wrap kw) with ([] ++ wrap kw). apply (REST [] kw); left; reflexivity.
+Qed.
